@@ -137,6 +137,41 @@ def extract(prog, lang):
         rhs = [(s.name, s.is_term, bool(getattr(s, 'filter_out', False)))
                for s in r.expansion]
         g.rules.append(Rule(i, r.origin.name, rhs, r.alias))
+    # lark splices the children of a rule whose name starts with `_` into
+    # its parent: a non-recursive helper with a single production is the
+    # same grammar (language and values) with the helper written out
+    changed = True
+    while changed:
+        changed = False
+        by_origin = {}
+        for ru in g.rules:
+            by_origin.setdefault(ru.origin, []).append(ru)
+        for H, prods in by_origin.items():
+            if not H.startswith('_') or len(prods) != 1 or \
+                    prods[0].alias is not None or H == g.start:
+                continue
+            body = prods[0].rhs
+            if any(n == H for (n, _, _) in body):
+                continue
+            used = False
+            for ru in g.rules:
+                if ru is prods[0]:
+                    continue
+                if any(n == H for (n, _, _) in ru.rhs):
+                    new = []
+                    for sym in ru.rhs:
+                        if sym[0] == H:
+                            new.extend(body)
+                        else:
+                            new.append(sym)
+                    ru.rhs = new
+                    used = True
+            if used:
+                g.rules = [ru for ru in g.rules if ru is not prods[0]]
+                for i, ru in enumerate(g.rules):
+                    ru.idx = i
+                changed = True
+                break
     for t in L.terminals:
         kind = 'str' if t.pattern.type == 'str' else 're'
         g.terminals[t.name] = (kind, t.pattern.value)
